@@ -203,6 +203,7 @@ class World:
     self._inv_before = dict(config._INVERSE_REGISTRY)
     self._hooks_before = list(config._FINALIZE_HOOKS)
     self._hard_reset()
+    self.reserved = set()   # selectors that the behaviour being replayed registers later
     self.published = []     # module names this world put into sys.modules
     self.twins = {}         # dotted selector of a twin registration -> selector that owns the shared function
     self.calling = None
@@ -690,11 +691,15 @@ class World:
     (`@W/macro()` for gin.macro, `@g()` for m.g): what a reference denotes never depends on how it was spelled."""
     name = dotted(v[1])
     comps = list(v[1])
-    if (self.step + self.pool_seed) % 2 and (self.desc.get(name) or {}).get('kind') != 'meth':
+    # (which references are shortened depends on the world's seed and on the reference, not on when it is written)
+    if (zlib.crc32(core.jdump(v).encode()) + self.pool_seed) % 2 and (self.desc.get(name) or {}).get('kind') != 'meth':
       for i in range(len(comps) - 1, 0, -1):
         cand = '.'.join(comps[i:])
         try:
-          if list(self.config._REGISTRY.matching_selectors(cand)) == [name]:
+          # (a name that a later registration of this behaviour would make ambiguous is not used: Gin resolves a
+          # stored reference again, by its spelling, whenever it is copied)
+          later = any(r != dotted(v[1]) and (r == cand or r.endswith('.' + cand)) for r in self.reserved)
+          if list(self.config._REGISTRY.matching_selectors(cand)) == [name] and not later:
             name = cand
             break
         except Exception:  # pylint: disable=broad-except
@@ -957,6 +962,7 @@ def replay(beh, fields=ALL_FIELDS, at_end=None, salt=0):
   Returns None if the code conforms, else a dict describing the first divergence."""
   # literal pools are seeded from the behaviour itself, so that a replay file reproduces exactly
   world = World(beh[0]['reg'], pool_seed=zlib.crc32(core.jdump([s['out'] for s in beh[:4]]).encode()) + core.seed() + salt)
+  world.reserved = set(dotted(st['out']['conf']['sel']) for st in beh[1:] if st['out'].get('op') == 'Register')
   try:
     bad = {k: v for k, v in world.reg_status.items() if v != 'ok'}
     if bad:
